@@ -5,8 +5,9 @@ still passes with the patch) and store the confirmed ones as /verif/seeded/<ID>-
 import json, os, shutil, subprocess, sys
 pid = sys.argv[1]
 skip_tests = '--skip-tests' in sys.argv
-src = '/tmp/seed/out/%s' % pid
-wt = '/tmp/seed/%s' % pid
+base = os.environ.get('SEED_BASE', '/tmp/seed')
+src = base + '/out/%s' % pid
+wt = base + '/%s' % pid
 meta = json.load(open(os.path.join(src, 'meta.json')))
 def sh(cmd, **kw):
     return subprocess.run(cmd, capture_output=True, text=True, **kw)
